@@ -4326,6 +4326,9 @@ static void insertNegateKnown(std::list<ValueFlow::Value>& values, const std::li
     for (ValueFlow::Value value:input) {
         if (!value.isIntValue() && !value.isContainerSizeValue())
             continue;
+        // "!v" of a relational bound (x <= v, x >= v) is not a value of x
+        if (value.bound != ValueFlow::Value::Bound::Point)
+            continue;
         value.intvalue = !value.intvalue;
         value.setKnown();
         values.push_back(std::move(value));
